@@ -10,11 +10,30 @@ From Coq Require Import ZArith NArith List Bool Permutation.
 Import ListNotations.
 From V Require Import Model.Val Model.Decl Proofs.DeclP.
 
+(* documents used by the non-vacuity examples ([..._hyps_sat]) below.
+   wit_i0 (Proofs/DeclP.v): PK.packages += [G (promise 1) { classes: [Kx (promise 2)] }]
+   ex_i1: PK.classes += [Ka (super: !promise 2)]          -- forward reference to wit_i0
+   ex_i2: PK.packages += [Kb (promise 1)]                 -- declares promise 1 only (again, if next to wit_i0) *)
+Definition ex_i1 : instr :=
+  mkInstr (RObj PK) GNil
+    (GCons a_classes (ICons (IObj None nKa [(a_super, SRef (RProm 2%N))] GNil) INil) GNil) [] [].
+Definition ex_i2 : instr :=
+  mkInstr (RObj PK) GNil (GCons a_packages (ICons (IObj (Some 1%N) nKb [] GNil) INil) GNil) [] [].
+Definition ex_d : list act := compile [ex_i1; wit_i0].       (* succeeds in both orders *)
+Definition ex_d' : list act := compile [wit_i0; ex_i1].
+Definition ex_du : list act := compile [ex_i1; ex_i2].       (* promise 2 is never declared *)
+Definition ex_dd : list act := compile [wit_i0; ex_i2].      (* promise 1 is declared by two different objects *)
+(* the action of ex_i1 that creates Ka and has to wait for promise 2 *)
+Definition ex_need : act := c_item (RObj PK) a_classes (IObj None nKa [(a_super, SRef (RProm 2%N))] GNil).
+Ltac in_list := repeat (first [left; reflexivity | right]).
+Ltac swap2 := unfold ex_d, ex_d', compile; cbn [map]; apply perm_swap.
+
 (* 0. the scheduler terminates within the fuel [run] gives it: every pop either executes an action for
       good or parks it under a promise that is still missing, and a re-queue removes it from [deferred] *)
 Theorem scheduler_terminates : forall d s, run d <> OutOfFuel s.
 Proof. exact run_terminates. Qed.
 Print Assumptions scheduler_terminates.
+(* no hypothesis; the conclusion is not by definition of [run]: [fuel_of] is a finite bound that has to suffice *)
 
 (* 1. without a duplicate declaration, what gets executed / resolved is the least fixed point of
       "reached and all needs available" — a set that does not depend on the order of the document *)
@@ -22,11 +41,29 @@ Theorem executed_is_lfp : forall d s, run d = Done s \/ run d = Unfulfilled s ->
   (forall a, In a (sX s) <-> fired d a) /\ (forall p, memP p (sP s) = true <-> avail d p).
 Proof. exact executed_iff_fired. Qed.
 Print Assumptions executed_is_lfp.
+(* hypotheses: one of the two terminal outcomes; both occur on two-instruction documents, and the sets
+   the conclusion speaks about are not empty (5 actions executed / the waiting action ex_need not executed) *)
+Example executed_is_lfp_hyps_sat : exists s, (run ex_d = Done s \/ run ex_d = Unfulfilled s) /\ length (sX s) = 5%nat
+  /\ In ex_need (sX s) /\ memP 2%N (sP s) = true.
+Proof. eexists. split; [left; vm_compute; reflexivity|]. split; [vm_compute; reflexivity|]. split; [vm_compute; in_list | vm_compute; reflexivity]. Qed.
+Example executed_is_lfp_hyps_sat_2 : exists s, (run ex_du = Done s \/ run ex_du = Unfulfilled s) /\ length (sX s) = 3%nat
+  /\ ~ In ex_need (sX s) /\ memP 2%N (sP s) = false /\ memP 1%N (sP s) = true.
+Proof.
+  eexists. split; [right; vm_compute; reflexivity|]. split; [vm_compute; reflexivity|].
+  split; [vm_compute; intros [H|[H|[H|[]]]]; discriminate H | split; vm_compute; reflexivity].
+Qed.
 
 Theorem lfp_order_free : forall d d', Permutation d d' ->
   (forall a, fired d a <-> fired d' a) /\ (forall p, avail d p <-> avail d' p).
 Proof. exact fired_perm_iff. Qed.
 Print Assumptions lfp_order_free.
+(* the proof only uses that d and d' have the same members ([fired] looks at d through [In] alone), so the
+   statement is weaker than it could be — it would hold for any d' with the same set of top-level actions *)
+Example lfp_order_free_hyps_sat : Permutation ex_d ex_d' /\ ex_d <> ex_d' /\ fired ex_d (c_instr ex_i1).
+Proof.
+  split; [swap2|]. split; [vm_compute; discriminate|].
+  apply fired_top; [vm_compute; in_list | vm_compute; intros n []].
+Qed.
 
 (* 2. order independence: if one order of the document is applied successfully then every order is, the
       same actions are executed (each exactly once) and the returned promise map is the same *)
@@ -35,23 +72,41 @@ Theorem order_independent : forall d d' s, Permutation d d' -> run d = Done s ->
              /\ forall p, lookupP (sP s) p = lookupP (sP s') p.
 Proof. exact done_perm. Qed.
 Print Assumptions order_independent.
+Example order_independent_hyps_sat : exists s, Permutation ex_d ex_d' /\ run ex_d = Done s /\ ex_d <> ex_d'.
+Proof. eexists. split; [swap2|]. split; [vm_compute; reflexivity | vm_compute; discriminate]. Qed.
 
 Theorem order_independent_documents : forall (d d' : list instr) s, Permutation d d' -> run (compile d) = Done s ->
   exists s', run (compile d') = Done s' /\ Permutation (sX s) (sX s')
              /\ forall p, lookupP (sP s) p = lookupP (sP s') p.
 Proof. exact done_perm_docs. Qed.
 Print Assumptions order_independent_documents.
+Example order_independent_documents_hyps_sat : exists s,
+  Permutation [ex_i1; wit_i0] [wit_i0; ex_i1] /\ run (compile [ex_i1; wit_i0]) = Done s.
+Proof. eexists. split; [apply perm_swap | vm_compute; reflexivity]. Qed.
 
 (* ... hence failing is order-independent too: one order succeeds iff every order does *)
 Theorem success_order_independent : forall d d', Permutation d d' ->
   ((exists s, run d = Done s) <-> (exists s', run d' = Done s')).
 Proof. exact success_iff. Qed.
 Print Assumptions success_order_independent.
+(* both truth values of the equivalence occur: a permuted pair that succeeds on both sides, one that fails on both *)
+Example success_order_independent_hyps_sat :
+  Permutation ex_d ex_d' /\ (exists s, run ex_d = Done s) /\ (exists s', run ex_d' = Done s').
+Proof. split; [swap2|]. split; eexists; vm_compute; reflexivity. Qed.
+Example success_order_independent_hyps_sat_2 :
+  Permutation ex_du (compile [ex_i2; ex_i1]) /\ (forall s, run ex_du <> Done s) /\ (forall s, run (compile [ex_i2; ex_i1]) <> Done s).
+Proof.
+  split; [unfold ex_du, compile; cbn [map]; apply perm_swap|].
+  split; intros s H; vm_compute in H; discriminate H.
+Qed.
 
 Theorem success_executes_everything_once : forall d s, run d = Done s ->
   Permutation (sX s) (shells d) /\ Permutation (sP s) (all_fuls d) /\ NoDup (map fst (sP s)).
 Proof. exact run_done. Qed.
 Print Assumptions success_executes_everything_once.
+Example success_executes_everything_once_hyps_sat : exists s, run ex_d = Done s /\ length (shells ex_d) = 5%nat
+  /\ length (all_fuls ex_d) = 2%nat.
+Proof. eexists. split; [vm_compute; reflexivity|]. split; reflexivity. Qed.
 
 (* 3. every promise reference points at the object that declared it: the promise map of a successful run
       is exactly the set of declarations of the document, and every promise any action mentions is in it *)
@@ -60,6 +115,13 @@ Theorem promise_points_to_declarer : forall d s, run d = Done s ->
   (forall a n, In a (shells d) -> In n (a_needs a) -> exists o, lookupP (sP s) n = Some o /\ In (n, o) (all_fuls d)).
 Proof. exact promise_decl. Qed.
 Print Assumptions promise_points_to_declarer.
+(* the hypothesis, and the premises of the second conjunct (an action of the document that needs a promise) *)
+Example promise_points_to_declarer_hyps_sat : exists s, run ex_d = Done s /\
+  In ex_need (shells ex_d) /\ In 2%N (a_needs ex_need) /\ In (2%N, nKx) (all_fuls ex_d).
+Proof.
+  eexists. split; [vm_compute; reflexivity|]. split; [vm_compute; in_list|].
+  split; vm_compute; in_list.
+Qed.
 
 (* 4. a reference to a promise nobody declares, or a promise id declared twice, is never a success —
       in any order (by 0 the outcome is then DupErr = ValueError or Unfulfilled = UnfulfilledPromisesError) *)
@@ -67,14 +129,29 @@ Theorem unfulfilled_errors : forall d a p, In a (shells d) -> In p (a_needs a) -
   forall s, run d <> Done s.
 Proof. exact undeclared_fails. Qed.
 Print Assumptions unfulfilled_errors.
+(* Ka (super: !promise 2) next to an instruction that declares promise 1 only *)
+Example unfulfilled_errors_hyps_sat :
+  In ex_need (shells ex_du) /\ In 2%N (a_needs ex_need) /\ ~ In 2%N (map fst (all_fuls ex_du)) /\ all_fuls ex_du <> [].
+Proof.
+  split; [vm_compute; in_list|]. split; [vm_compute; in_list|].
+  split; [vm_compute; intros [H|[]]; discriminate H | vm_compute; discriminate].
+Qed.
 
 Theorem duplicate_errors : forall d, ~ NoDup (map fst (all_fuls d)) -> forall s, run d <> Done s.
 Proof. exact duplicate_fails. Qed.
 Print Assumptions duplicate_errors.
+(* two different instructions, two different objects (G, Kb), one promise id *)
+Example duplicate_errors_hyps_sat : ~ NoDup (map fst (all_fuls ex_dd)) /\ map fst (all_fuls ex_dd) = [1; 2; 1]%N.
+Proof.
+  split; [|reflexivity]. change (~ NoDup [1; 2; 1]%N).
+  intro H. inversion H as [|x l Hn Hd]. apply Hn. right. left. reflexivity.
+Qed.
 
 Theorem duplicate_error_means_duplicate : forall d s, run d = DupErr s -> ~ NoDup (map fst (all_fuls d)).
 Proof. exact run_dup. Qed.
 Print Assumptions duplicate_error_means_duplicate.
+Example duplicate_error_means_duplicate_hyps_sat : exists s, run ex_dd = DupErr s.
+Proof. eexists. vm_compute. reflexivity. Qed.
 
 (* 5. the resulting store.  _partial: proved for documents in which no two actions write the same cell
       ([cell_indep], decidable by [indep_check]); the order of the members of a list that several actions
@@ -85,10 +162,25 @@ Theorem store_order_independent_partial : forall d d' s s', Permutation d d' ->
               /\ read_val o a (final_log s) = read_val o a (final_log s').
 Proof. exact store_perm. Qed.
 Print Assumptions store_order_independent_partial.
+(* all four hypotheses on one pair of orders; [cell_indep] through its decision procedure.  The cells
+   written are not empty: PK.classes = [Ka] and Ka.super = Kx (resolved through promise 2) *)
+Example store_order_independent_partial_hyps_sat : exists s s',
+  Permutation ex_d ex_d' /\ run ex_d = Done s /\ run ex_d' = Done s' /\ cell_indep (lookupP (sP s)) (shells ex_d)
+  /\ read_list PK a_classes (final_log s) = [nKa] /\ read_val nKa a_super (final_log s') = Some (CObj nKx).
+Proof.
+  eexists. eexists. split; [swap2|]. split; [vm_compute; reflexivity|]. split; [vm_compute; reflexivity|].
+  split; [apply indep_check_sound; vm_compute; reflexivity|]. split; vm_compute; reflexivity.
+Qed.
 
 Theorem indep_check_decides : forall pm l, indep_check pm l = true -> cell_indep pm l.
 Proof. exact indep_check_sound. Qed.
 Print Assumptions indep_check_decides.
+Example indep_check_decides_hyps_sat : exists s, run ex_d = Done s /\ indep_check (lookupP (sP s)) (shells ex_d) = true
+  /\ length (shells ex_d) = 5%nat.
+Proof. eexists. split; [vm_compute; reflexivity|]. split; vm_compute; reflexivity. Qed.
+(* ... and the check does reject: the two siblings of wit_i1 are appended to the same list *)
+Example indep_check_rejects : indep_check (fun _ => None) (shells (compile [wit_i1])) = false.
+Proof. reflexivity. Qed.
 
 (* witness (Proofs/DeclP.v: wit_i0, wit_i1): i1 appends two classes [Ka (super: !promise 2); Kb] to one list,
    i0 declares promise 2 in another list.  No two instructions extend the same list, yet the order inside
@@ -103,9 +195,7 @@ Print Assumptions store_order_refuted.
 
 (* non-vacuity of the hypotheses: a document with a forward reference, applied successfully in both
    orders, whose actions write pairwise different cells *)
-Definition ex_i1 : instr :=
-  mkInstr (RObj PK) GNil
-    (GCons a_classes (ICons (IObj None nKa [(a_super, SRef (RProm 2%N))] GNil) INil) GNil) [] [].
+(* [ex_i1] is defined at the top of the file, with the other documents of the non-vacuity examples *)
 Example ex_done : exists s, run (compile [ex_i1; wit_i0]) = Done s /\
   indep_check (lookupP (sP s)) (shells (compile [ex_i1; wit_i0])) = true /\
   read_val nKa a_super (final_log s) = Some (CObj nKx).
